@@ -124,4 +124,7 @@ def _cleanup():
 
 
 if __name__ == "__main__":
-    sys.exit(main())
+    rc = main()
+    sys.stdout.flush()
+    sys.stderr.flush()
+    os._exit(rc)  # skip interpreter-exit finalizers of simulated objects
